@@ -146,6 +146,26 @@ class Continue(Expression):
 T = TypeVar("T")
 
 
+_BACKSLASH = "\\"
+
+
+def _escape_string(value: str) -> str:
+    """Escape backslashes, control characters and `${` in the text of a string."""
+    return (
+        value.replace("\\", "\\\\")
+        .replace("\n", "\\n")
+        .replace("\r", "\\r")
+        .replace("\t", "\\t")
+        .replace("${", "\\${")
+    )
+
+
+def _quote_string(text: str) -> str:
+    """Return _text_ surrounded by quotes, as a Liquid string literal."""
+    quote = '"' if "'" in text and '"' not in text else "'"
+    return f"{quote}{text.replace(quote, _BACKSLASH + quote)}{quote}"
+
+
 class Literal(Expression, Generic[T]):
     __slots__ = ("value",)
 
@@ -209,6 +229,9 @@ class StringLiteral(Literal[str]):
 
     def __init__(self, token: TokenT, value: str):
         super().__init__(token, value)
+
+    def __str__(self) -> str:
+        return _quote_string(_escape_string(self.value))
 
     def __eq__(self, other: object) -> bool:
         return isinstance(other, StringLiteral) and self.value == other.value
@@ -384,9 +407,11 @@ class TemplateString(Expression):
         return isinstance(other, TemplateString) and self.template == other.template
 
     def __str__(self) -> str:
-        return repr(
+        return _quote_string(
             "".join(
-                e.value if isinstance(e, StringLiteral) else f"${{{e}}}"
+                _escape_string(e.value)
+                if isinstance(e, StringLiteral)
+                else f"${{{e}}}"
                 for e in self.template
             )
         )
@@ -526,7 +551,7 @@ class Path(Expression):
         elif isinstance(root, Path):
             buf = [f"[{root}]"]
         else:
-            buf = [f"[{root!r}]"]
+            buf = [f"[{_quote_string(_escape_string(root))}]"]
         for segment in it:
             if isinstance(segment, Path):
                 buf.append(f"[{segment}]")
@@ -534,7 +559,7 @@ class Path(Expression):
                 if RE_PROPERTY.fullmatch(segment):
                     buf.append(f".{segment}")
                 else:
-                    buf.append(f"[{segment!r}]")
+                    buf.append(f"[{_quote_string(_escape_string(segment))}]")
             else:
                 buf.append(f"[{segment}]")
         return "".join(buf)
